@@ -333,9 +333,13 @@ AXIOM_ALLOW = [
     "Classical_Prop.classic", "classic", "FunctionalExtensionality.functional_extensionality_dep", "functional_extensionality_dep",
     "ClassicalDedekindReals.sig_forall_dec", "sig_forall_dec", "ClassicalDedekindReals.sig_not_dec", "sig_not_dec",
     "ProofIrrelevance.proof_irrelevance", "proof_irrelevance", "Eqdep.Eq_rect_eq.eq_rect_eq", "eq_rect_eq", "JMeq.JMeq_eq", "JMeq_eq",
-    # primitive types (not axioms of ours; listed by Print Assumptions)
+    # primitive types and operations (kernel primitives declared with `Primitive`, listed by Print Assumptions; not assumptions)
     "PrimFloat.float", "float", "PrimInt63.int", "int",
+    "add", "sub", "mul", "div", "sqrt", "opp", "abs", "eqb", "ltb", "leb", "compare", "classify", "of_uint63", "normfr_mantissa",
+    "frshiftexp", "ldshiftexp", "next_up", "next_down", "lsl", "lsr", "land", "lor", "lxor", "mod", "divs", "mods", "asr",
+    "addc", "addcarryc", "subc", "subcarryc", "mulc", "diveucl", "diveucl_21", "addmuldiv", "head0", "tail0", "ltsb", "lesb", "compares",
 ]
+PRIM_PREFIXES = ("PrimInt63.", "PrimFloat.", "Uint63.", "Sint63.", "CarryType.", "FloatOps.")
 FORBIDDEN = re.compile(r"\b(Admitted|admit|Axiom|Parameter|Conjecture|Unset Guard|bypass_check|Admit Obligations|type-in-type|impredicative-set)\b")
 
 
@@ -371,8 +375,8 @@ def check_props(prop, extra_targets=()):
     for blk in re.finditer(r"Axioms:\n((?:.+\n?)+?)(?=\n\S|\Z|COQC|make)", out):
         for l in blk.group(1).split("\n"):
             mm = re.match(r"^(\S+)\s*:", l)
-            if mm: axioms.add(mm.group(1))
-    bad_axioms = sorted(a for a in axioms if a not in AXIOM_ALLOW and a.split(".")[-1] not in AXIOM_ALLOW)
+            if mm and mm.group(1) != "Axioms": axioms.add(mm.group(1))
+    bad_axioms = sorted(a for a in axioms if a not in AXIOM_ALLOW and a.split(".")[-1] not in AXIOM_ALLOW and not a.startswith(PRIM_PREFIXES))
     forb = scan_forbidden()
     good = ok and not bad_axioms and not forb
     failed_thm = None
